@@ -9,7 +9,13 @@ tie:   (1) sanitize_table_prefix and the five Tables classes on adversarial ids 
            seeded operation sequences incl. the purge of each component: row counts of every table vs
            AppDb.run, and an oracle evaluated on the implementation alone: an operation of app A never
            changes anything app B can read (API level and raw table dump) and the table list stays
-           what the naming scheme says.
+           what the naming scheme says.  The read-out goes through the public, caching layers too (reference
+           keys created by ANY app resolved through each app's client data store, app info / discovery,
+           registered invocations, runners, valid conditions, cron marks, trigger-run claims);
+       (4) process-wide state: gen/ProcShared_gen.v (every mutable container bound in a class body / at module
+           level of the component modules + the kinds of access made to it) vs the containers the components
+           of two real apps are SEEN to share (object identity); oracle on the implementation: an operation of
+           app A changes such a container only under A's own id.
 """
 from __future__ import annotations
 
@@ -20,12 +26,14 @@ import sqlite3
 
 from harness import world
 from harness.common import Ctx
+from harness.translate import procshared as trp
 from harness.translate import sanitize as tr
 
-GENERATED = [("harness.translate.sanitize", "translate", "gen/Sanitize_gen.v")]
+GENERATED = [("harness.translate.sanitize", "translate", "gen/Sanitize_gen.v"),
+             ("harness.translate.procshared", "translate", "gen/ProcShared_gen.v")]
 
 MANIFEST = {
-    "technique": "Coq proof over constants generated from sqlite_utils.py + executable SHA-256 + differential correspondence on real apps",
+    "technique": "Coq proof over constants generated from sqlite_utils.py and over the generated list of process-wide containers of the component modules + executable SHA-256 + differential correspondence on real apps",
     "text": "Machine-checked theorems (Props/C17.v, all closed under the global context): for EVERY id string the table prefix and "
             "every table name is an unquoted SQL identifier (no metacharacter survives); the naming scheme parses uniquely from the "
             "right (equal names => equal sanitised text, equal hash digits, same component, same table); LIKE prefix||'%' is "
@@ -34,13 +42,28 @@ MANIFEST = {
             "tree is refuted constructively (B := A's table prefix + anything) and proved isolated for same-length ids unless the "
             "hash digits coincide; a concrete 32-bit collision pair shares all 22 tables. The regex class, digit rule, default, "
             "hash length, separators, all table suffixes and the purge selection rule are regenerated from the source on every run. "
+            "One process: every mutable container bound in a class body or at module level of the five component packages (the only state the "
+            "components of two apps can have in common) is regenerated from the source with the kinds of access made to it (read/store/remove "
+            "under an application id or a key derived from it, whole-container read, access at any other key, clear); proved: if all of them are only "
+            "stored to / removed from under the acting app's id, no access sequence of other apps changes what B observes (induction), and the "
+            "containers of the current tree satisfy it (process_isolation_of_this_tree: breaks when a container is cleared as a whole or used at "
+            "foreign keys, both refuted by witnesses). "
             "Tie: model prefix/table names vs sanitize_table_prefix/Tables on adversarial ids; model purge_selects vs the real "
             "delete_tables_with_prefix on look-alike names; real app pairs/triples on one SQLite file and in one process with "
-            "seeded op sequences, row counts vs the model and a non-interference oracle on API read-outs, raw table dumps and sqlite_master.",
+            "seeded op sequences, row counts vs the model and a non-interference oracle on API read-outs, raw table dumps and sqlite_master; the "
+            "sequences also go through the public caching layers (values kept by reference, task calls with large arguments, read-backs, probes "
+            "of reference keys only another app created, app-info registration, cron marks, trigger-run claims) and the read-out resolves every "
+            "reference key of the universe through every app, reads app info / discovery, registered invocations, runners, valid conditions; "
+            "what an app reads about itself must be its own; the containers that the components of two apps really share (object identity, "
+            "walked from the component objects) are compared with the generated list and may only change under the acting app's id.",
     "note": "Trusted: Coq kernel; AST translator (fail-closed); SQLite's LIKE and sqlite_master; hashlib (the Gallina SHA-256 is compared "
             "with it on every id used). Modelled, not verified: what each component API writes (the model records one row per low-level "
-            "write; high-level task calls are covered by the oracle only); in-process isolation is only observed (dictionaries keyed by "
-            "the exact id string), not modelled. Known findings: LIKE-based purge reaches look-alike ids (repair proposed in "
+            "write; high-level task calls are covered by the oracle only). In-process isolation: the model covers the process-wide containers of "
+            "pynenc/{broker,orchestrator,state_backend,trigger,client_data_store}/*.py (class-body and module-level bindings, instance attributes "
+            "bound to them); per-instance attributes are taken to be per application (one component instance per app object) and that is "
+            "observed on the object graph, not proved; Pynenc._instances (registry of app objects, cleared as a whole by the test helper "
+            "_clear_instances) and state outside these packages are outside the generated fact and covered by the observations only; "
+            "whole-container reads (discover_app_infos) are the designed discovery channel: B's view through them is its own entry. Known findings: LIKE-based purge reaches look-alike ids (repair proposed in "
             "proposed_fixes/C17-purge-structural-match.diff); ids whose sanitised text begins with 'sqlite' name tables SQLite reserves "
             "(repair in proposed_fixes/C17-reserved-sqlite-prefix.diff); 8-hex-digit hash collisions share all tables (no small repair).",
     "design_ref": "DESIGN.md §6 C17",
@@ -253,9 +276,12 @@ class Apps:
         Pynenc._clear_instances()
         self.kind, self.ids = kind, ids
         self.db = os.path.join(scratch, f"shared_{tag}.db")
-        self.apps, self.tasks, self.errors = [], [], []
+        self.apps, self.tasks, self.big_tasks, self.errors = [], [], [], []
         self.n = 0
-        self.universe = {"inv": [], "key": [], "real_inv": []}
+        self.universe = {"inv": [], "key": [], "real_inv": [], "ref": []}
+        self.own_refs: dict[int, list[str]] = {}
+        self.claimed: set[int] = set()
+        self.anomalies: list[str] = []
         for i in ids:
             b = PynencBuilder().app_id(i)
             b = b.sqlite(sqlite_db_path=self.db) if kind == "sqlite" else b.memory()
@@ -268,6 +294,7 @@ class Apps:
                 self.errors.append(f"{type(ex).__name__}: {ex}")
             self.apps.append(app)
             self.tasks.append(tasks_basic.bind(app, tasks_basic.add_one))
+            self.big_tasks.append(tasks_basic.bind(app, tasks_basic.ident))
         self.con = sqlite3.connect(self.db, isolation_level=None) if kind == "sqlite" else None
 
     def table_names(self, k: int, vocab) -> list[str]:
@@ -311,12 +338,61 @@ class Apps:
             inv = self.tasks[k](n)
             self.universe["real_inv"].append(inv.invocation_id)
             app.state_backend.wait_for_all_async_operations()
+        elif kind in ("store", "store_same"):     # public API: a value large enough to be kept by reference
+            doc = "shared-doc:" + "s" * doc_len(app) if kind == "store_same" else f"doc-of-app-{k}-{n}:" + "d" * doc_len(app)
+            ref = app.client_data_store.serialize(doc)
+            if app.client_data_store.is_reference(ref):
+                self._ref(k, ref)
+        elif kind == "resolve":                   # app k reads back one of the references it created (warms its caches)
+            mine = self.own_refs.get(k, [])
+            if mine:
+                try:
+                    app.client_data_store.resolve(mine[op[2] % len(mine)])
+                except KeyError:          # the app purged its own store in between
+                    pass
+        elif kind == "probe":                     # app k tries a reference key of the universe, whoever created it
+            refs = self.universe["ref"]
+            if refs:
+                try:
+                    app.client_data_store.resolve(refs[op[2] % len(refs)])
+                except KeyError:
+                    pass
+        elif kind == "bigcall":                   # a task call whose argument is kept by reference
+            inv = self.big_tasks[k](f"arg-of-app-{k}-{n}:" + "a" * doc_len(app))
+            self.universe["real_inv"].append(inv.invocation_id)
+            app.state_backend.wait_for_all_async_operations()
+            for v in inv.call.serialized_arguments.values():
+                if app.client_data_store.is_reference(v):
+                    self._ref(k, v)
+        elif kind == "cron":                      # the same condition id in every app
+            from datetime import UTC, datetime, timedelta
+            app.trigger.store_last_cron_execution("cron-shared", datetime(2024, 1, 1, tzinfo=UTC) + timedelta(minutes=n),
+                                                  app.trigger.get_last_cron_execution("cron-shared"))
+        elif kind == "claim":                     # the same trigger-run id in every app: the answer depends on the app's own claims only
+            got = app.trigger.claim_trigger_run("run-shared", 3600)
+            want = k not in self.claimed
+            self.claimed.add(k)
+            if got != want:
+                self.anomalies.append(f"claim_trigger_run('run-shared') answered {got}, the app's own history says {want}")
+        elif kind == "appinfo":
+            from pynenc.app import AppInfo
+            app.state_backend.store_app_info(AppInfo.from_app(app))
         elif kind == "purge":
             getattr(app, COMP_ATTR[op[2]]).purge()
+            if op[2] == "trg":
+                self.claimed.discard(k)
         elif kind == "purge_all":
             app.purge()
+            self.claimed.discard(k)
         else:
             raise ValueError(op)
+
+    def _ref(self, k: int, ref: str) -> None:
+        if ref not in self.universe["ref"]:
+            self.universe["ref"].append(ref)
+        if ref not in self.own_refs.setdefault(k, []):
+            self.own_refs[k].append(ref)
+            REFS_CREATED[0] += 1
 
     def snapshot(self, k: int, vocab):
         app = self.apps[k]
@@ -331,7 +407,18 @@ class Apps:
              "results": {x: get(app.state_backend._get_result, x) for x in self.universe["inv"]},
              "conditions": sorted(c.condition_id for c in app.trigger._get_all_conditions()),
              "status": {x: str(get(app.orchestrator.get_invocation_status, x)) for x in self.universe["real_inv"]},
-             "history": {x: len(get(app.state_backend.get_history, x) or []) for x in self.universe["real_inv"]}}
+             "history": {x: len(get(app.state_backend.get_history, x) or []) for x in self.universe["real_inv"]},
+             # reference keys through the public API (local caches included), also those only another app created
+             "refs": {x: short(get(app.client_data_store.resolve, x)) for x in self.universe["ref"]},
+             "invocation": {x: outcome(lambda x=x: app.state_backend.get_invocation(x).invocation_id == x)
+                            for x in self.universe["real_inv"]},
+             "app_info": outcome(lambda: app.state_backend.get_app_info().app_id),
+             "registered": outcome(app.orchestrator.count_invocations),
+             "runners": outcome(lambda: sorted(r.runner_id for r in app.orchestrator.get_active_runners())),
+             "valid_conditions": outcome(lambda: sorted(app.trigger.get_valid_conditions())),
+             "cron": outcome(lambda: str(app.trigger.get_last_cron_execution("cron-shared")))}
+        if self.kind == "mem":      # (the SQLite discovery reads the default database path, not this file)
+            s["discoverable"] = outcome(lambda: self.ids[k] in type(app.state_backend).discover_app_infos())
         if self.con is not None:
             have = set(self.master())
             s["rows"] = {n: (self.con.execute(f'SELECT * FROM "{n}" ORDER BY rowid').fetchall() if n in have else "MISSING")
@@ -350,13 +437,37 @@ class Apps:
 
 
 
+REFS_CREATED = [0]
+
+
+def doc_len(app) -> int:
+    """long enough for the client data store to keep the value by reference (the number of references really
+    created is reported in the notes)"""
+    return max(1500, 2 * int(app.client_data_store.conf.min_size_to_cache))
+
+
+def short(v):
+    return v if not isinstance(v, str) or len(v) < 60 else f"{v[:40]}...({len(v)} chars)"
+
+
+def outcome(f):
+    try:
+        return f()
+    except Exception as ex:  # noqa: BLE001 - the error class is the observation
+        return f"<{type(ex).__name__}>"
+
+
+# what an app observes for an identifier nobody created yet (the snapshot before the operation did not ask)
+DEFAULT_OBS = {"status": "None", "history": 0, "invocation": "<InvocationNotFoundError>"}
+
+
 def diff_snap(a: dict, b: dict) -> list[str]:
     out = []
     for key in b:
         va, vb = a.get(key), b[key]
         if isinstance(vb, dict):
             for x in vb:
-                old = va.get(x) if isinstance(va, dict) and x in va else ("None" if key == "status" else 0 if key == "history" else None)
+                old = va.get(x) if isinstance(va, dict) and x in va else DEFAULT_OBS.get(key)
                 if key == "rows" and not (isinstance(va, dict) and x in va):
                     continue
                 if old != vb[x]:
@@ -364,6 +475,104 @@ def diff_snap(a: dict, b: dict) -> list[str]:
         elif va != vb:
             out.append(f"{key}: {va!r} -> {vb!r}"[:200])
     return out
+
+
+# ---------------------------------------------------------------- process-shared state (object graph)
+MARK = re.compile(r"of-app-\d+")      # every payload an operation stores on behalf of app k contains "of-app-k"
+
+
+def component_graph(app) -> dict[int, tuple[str, object]]:
+    """Mutable containers reachable from the five components of `app` WITHOUT going through the app object:
+    instance attributes, class attributes along the MRO (pynenc classes) and pynenc helper objects they hold."""
+    import collections
+    from pynenc import Pynenc
+    out: dict[int, tuple[str, object]] = {}
+    seen: set[int] = set()
+
+    def visit(o, path: str, depth: int) -> None:
+        items = list(vars(o).items()) if hasattr(o, "__dict__") else []
+        items = [(f"{type(o).__name__}.{a}", v) for a, v in items]
+        for cls in type(o).__mro__:
+            if (cls.__module__ or "").startswith("pynenc"):
+                for a, v in vars(cls).items():
+                    if not a.startswith("__") and not callable(v) and not hasattr(v, "__get__"):
+                        items.append((f"{cls.__name__}.{a}", v))
+        for name, v in items:
+            if id(v) in seen or isinstance(v, Pynenc) or v is None:
+                continue
+            seen.add(id(v))
+            if isinstance(v, (dict, list, set, collections.deque)):
+                out[id(v)] = (name, v)
+            elif depth < 3 and (type(v).__module__ or "").startswith("pynenc") and not (type(v).__module__ or "").startswith("pynenc.conf") \
+                    and not isinstance(v, type):
+                visit(v, name, depth + 1)
+
+    for attr in COMP_ATTR.values():
+        visit(getattr(app, attr), attr, 0)
+    return out
+
+
+def freeze(c) -> dict:
+    """content of a shared container as text: key -> (raw key, value text)"""
+    if isinstance(c, dict):
+        return {repr(k)[:200]: (k, repr(v)[:600]) for k, v in list(c.items())}
+    out: dict = {}
+    for x in list(c):
+        t = repr(x)[:600]
+        out[t] = (None, t)
+    return out
+
+
+def owns(key, app_id: str) -> bool:
+    return key == app_id or (isinstance(key, (tuple, list, frozenset)) and app_id in key)
+
+
+class SharedState:
+    """The containers that the components of two or more apps of the process both reach (same object).
+    Oracle on the implementation: an operation of app A changes such a container only in entries keyed by
+    A's own id; it never alters an entry keyed by another app's id and never leaves application data
+    (a payload of any app) under a key that is not its id."""
+
+    def __init__(self, apps: "Apps"):
+        self.apps = apps
+        graphs = [component_graph(a) for a in apps.apps]
+        count: dict[int, int] = {}
+        for g in graphs:
+            for i in g:
+                count[i] = count.get(i, 0) + 1
+        self.shared = {i: v for g in graphs for i, v in g.items() if count[i] > 1}
+        self.state = {i: freeze(c) for i, (_, c) in self.shared.items()}
+
+    def names(self) -> list[str]:
+        return sorted(n for n, _ in self.shared.values())
+
+    def after(self, op) -> list[tuple[str, str]]:
+        """-> [(container name, what)] for the changes the operation may not make"""
+        ids = self.apps.ids
+        actor = ids[op[1]]
+        bad = []
+        for i, (name, c) in self.shared.items():
+            new = freeze(c)
+            old = self.state[i]
+            self.state[i] = new
+            for t in sorted(set(old) | set(new)):
+                if old.get(t, (None, None))[1] == new.get(t, (None, None))[1]:
+                    continue
+                key = (new.get(t) or old.get(t))[0]
+                if key is not None and owns(key, actor):
+                    continue
+                how = "added" if t not in old else "removed" if t not in new else "changed"
+                other = [b for b in ids if b != actor and key is not None and owns(key, b)]
+                text = t + " " + (old.get(t, ("", ""))[1] or "") + " " + (new.get(t, ("", ""))[1] or "")
+                if other:
+                    bad.append((name, f"{how} the entry of app {other[0]!r} in the process-wide {name}"))
+                elif MARK.search(text):
+                    bad.append((name, f"{how} application data ({MARK.search(text).group(0)}) under the key {t[:70]} of the process-wide {name}, "
+                                      f"which the components of the other apps reach too"))
+        return bad
+
+    def resync(self) -> None:
+        self.state = {i: freeze(c) for i, (_, c) in self.shared.items()}
 
 
 def like_sql(pattern: str, name: str) -> bool:
@@ -392,6 +601,9 @@ def classify(apps: Apps, op, victim: int, vocab) -> str:
     return f"interference:sqlite:{op[0]}"
 
 
+SHARED_SEEN: set[str] = set()
+
+
 def run_case(ctx: Ctx, scratch: str, kind: str, ids: list[str], ops: list, vocab, tag: str, verbose: bool = False):
     """Runs the sequence on real apps; oracle = non-interference + table-list check. Returns final row counts."""
     apps = Apps(kind, scratch, ids, tag)
@@ -411,9 +623,32 @@ def run_case(ctx: Ctx, scratch: str, kind: str, ids: list[str], ops: list, vocab
                 ctx.violation("table-list", f"sqlite_master of ids {ids} is not the naming scheme's table list: unexpected {sorted(set(m) - set(expected_master))[:3]} missing {sorted(set(expected_master) - set(m))[:3]} non-identifiers {bad[:3]}", replay)
         snaps = [apps.snapshot(k, vocab) for k in range(len(ids))]
         init_counts = [apps.counts(k, vocab) for k in range(len(ids))] if kind == "sqlite" else None
+        shared = SharedState(apps)
+        SHARED_SEEN.update(shared.names())
+
+        def own_identity(snap_list, step) -> None:
+            """what an app reads about ITSELF is its own (a constant foreign answer never shows up as a change)"""
+            for v, sn in enumerate(snap_list):
+                got = sn.get("app_info")
+                if isinstance(got, str) and not got.startswith("<") and got != ids[v] and not any(
+                        classify_prefix_equal(ids[v], o) for o in ids if o != ids[v]):
+                    ctx.violation(f"interference:{kind}:app_info-foreign",
+                                  f"{kind}: app {ids[v]!r} among {ids} reads the app info of {got!r} as its own", dict(replay, at=step, victim=v))
+        own_identity(snaps, -1)
         for step, op in enumerate(ops):
             apps.apply(op)
+            for name, what in shared.after(op):
+                if verbose:
+                    print(f"  step {step} {op}: {what}")
+                ctx.violation(f"shared-state:{name}", f"{kind}: operation {op} of app {ids[op[1]]!r} {what}",
+                              dict(replay, at=step, key=f"shared-state:{name}"))
+            for a in apps.anomalies:
+                if verbose:
+                    print(f"  step {step} {op}: {a}")
+                ctx.violation(f"interference:{kind}:{op[0]}-answer", f"{kind}: app {ids[op[1]]!r} among {ids}: {a}", dict(replay, at=step))
+            apps.anomalies.clear()
             new = [apps.snapshot(k, vocab) for k in range(len(ids))]
+            shared.resync()                      # the read-out itself may fill caches: not attributed to the next operation
             for v in range(len(ids)):
                 if v == op[1] or ids[v] == ids[op[1]]:
                     continue
@@ -432,6 +667,7 @@ def run_case(ctx: Ctx, scratch: str, kind: str, ids: list[str], ops: list, vocab
                 m = apps.master()
                 if sorted(set(m) | {"sqlite_sequence"}) != expected_master:
                     ctx.violation("table-list", f"table list changed after {op}: {sorted(set(m) ^ set(expected_master))[:4]}", dict(replay, at=step))
+            own_identity(new, step)
             snaps = new
         if kind == "sqlite":
             return init_counts, [apps.counts(k, vocab) for k in range(len(ids))]
@@ -505,6 +741,67 @@ def gen_cases(ctx: Ctx, ids: list[str], vocab):
     return cases
 
 
+def gen_proc_cases(ctx: Ctx, ids: list[str], vocab):
+    """Operation sequences through the public, caching layers (values kept by reference, task calls with large
+    arguments, app-info registration, read-backs that warm local caches, probes of foreign reference keys)
+    mixed with low-level writes and the purge of each component / of the whole app."""
+    from pynenc.util.sqlite_utils import sanitize_table_prefix as sp
+    rng = ctx.rng
+    comps = [c for c, _ in vocab]
+    fixed = [
+        (["alpha", "beta"], [["store", 0], ["probe", 1, 0], ["resolve", 0, 0], ["purge", 1, "client"], ["store_same", 0],
+                             ["store_same", 1], ["purge", 0, "client"], ["purge", 1, "state_backend"], ["appinfo", 1]]),
+        (["tenant-a", "tenant_a", "Tenant-A"], [["bigcall", 0], ["probe", 1, 0], ["call", 1], ["purge", 0, "state_backend"],
+                                                ["appinfo", 0], ["bigcall", 2], ["purge_all", 1], ["resolve", 2, 0]]),
+        (["x", "x'; DROP TABLE y; --"], [["store", 1], ["store", 0], ["purge_all", 0], ["probe", 0, 0], ["resolve", 1, 0]]),
+        (["job.s", "job-s", "JOB.S"], [["claim", 0], ["cron", 0], ["claim", 1], ["cron", 1], ["write", 2, "orchestrator"], ["purge", 0, "trg"],
+                                       ["claim", 0], ["claim", 2], ["purge", 1, "orchestrator"], ["cron", 2]]),
+    ]
+    pool = [i for i in ids if usable(i) and not sp(i).lower().startswith("sqlite_") and {i} != {COL_A} and i != COL_B]
+    cases = [(f, o, False) for f, o in fixed]
+    for _ in range(110 if ctx.thorough else 22):
+        if rng.random() < .5:
+            base = rng.choice(["my-app", "Ab-cD", "svc-a.b", "a_b"])
+            fam = [base, base.swapcase() if rng.random() < .5 else base.replace("-", "_").replace(".", "-") + ("" if "-" in base or "." in base else "_")]
+        else:
+            fam = rng.sample(pool, 2)
+        if rng.random() < .35:
+            fam.append(rng.choice(pool))
+        fam = list(dict.fromkeys(fam))
+        if len(fam) < 2:
+            continue
+        ops = []
+        for _ in range(rng.randint(5, 12)):
+            k = rng.randrange(len(fam))
+            r = rng.random()
+            if r < .22:
+                ops.append(["store", k])
+            elif r < .30:
+                ops.append(["store_same", k])
+            elif r < .40:
+                ops.append(["resolve", k, rng.randrange(4)])
+            elif r < .50:
+                ops.append(["probe", k, rng.randrange(6)])
+            elif r < .58:
+                ops.append(["bigcall", k])
+            elif r < .64:
+                ops.append(["call", k])
+            elif r < .68:
+                ops.append(["appinfo", k])
+            elif r < .72:
+                ops.append(["cron", k])
+            elif r < .76:
+                ops.append(["claim", k])
+            elif r < .80:
+                ops.append(["write", k, rng.choice(comps)])
+            elif r < .94:
+                ops.append(["purge", k, rng.choice(comps)])
+            else:
+                ops.append(["purge_all", k])
+        cases.append((fam, ops, False))
+    return cases
+
+
 def memo_digest(ids: list[str]) -> str:
     """`let Hm := ...` : sha256_hex with the digests of the listed ids computed once (vm_compute is call-by-value);
     extensionally the same function, so the evaluated term is the model's."""
@@ -537,6 +834,8 @@ def model_expr(ids: list[str], ops: list, vocab) -> str:
 
 def run_apps(ctx: Ctx, scratch: str, ids: list[str], vocab) -> None:
     cases = gen_cases(ctx, ids, vocab)
+    proc = gen_proc_cases(ctx, ids, vocab)
+    cases += proc
     low = [(f, o) for f, o, is_low in cases if all(op[0] in ("write", "purge", "purge_all") for op in o)]
     ctx.log(f"app cases: {len(cases)} ({len(low)} compared with the model row by row)")
     model = ctx.coq_eval(IMPORTS, [model_expr(f, o, vocab) for f, o in low], chunk=max(1, len(low) // 14 + 1))
@@ -571,6 +870,9 @@ def run_apps(ctx: Ctx, scratch: str, ids: list[str], vocab) -> None:
             ctx.sample({"ids": fam, "ops": ops})
     ctx.count(2 * len(cases) + len(low), len(cases))
     hist["cases"] = len(cases)
+    hist["cases_through_caching_layers"] = len(proc)
+    hist["values_kept_by_reference"] = REFS_CREATED[0]
+    hist["process_shared_containers_reached_by_two_apps"] = sorted(SHARED_SEEN)
     hist["cases_compared_with_model_rows"] = len(low)
     hist["operations_executed"] = n_ops
     ctx.notes["apps"] = hist
@@ -604,19 +906,53 @@ def search_collision(ctx: Ctx, scratch: str, vocab, limit: int) -> None:
     ctx.notes["collision_search"] = {"tried": tried, "found": None}
 
 
+def gen_text() -> str:
+    from harness.common import COQ
+    return "".join(open(os.path.join(COQ, f)).read() for f in ("gen/Sanitize_gen.v", "gen/ProcShared_gen.v"))
+
+
 def gen_guard(ctx: Ctx) -> None:
-    """coq/gen is shared by concurrent runs: a model value is only used if the generated file is still ours."""
-    from harness.common import COQ, CheckError
-    if open(os.path.join(COQ, "gen/Sanitize_gen.v")).read() != ctx.notes.get("_gen_text"):
-        raise CheckError("coq/gen/Sanitize_gen.v was rewritten by a concurrent run (different source tree); re-run")
+    """coq/gen is shared by concurrent runs: a model value is only used if the generated files are still ours."""
+    from harness.common import CheckError
+    if gen_text() != ctx.notes.get("_gen_text"):
+        raise CheckError("coq/gen/Sanitize_gen.v or ProcShared_gen.v was rewritten by a concurrent run (different source tree); re-run")
+
+
+def run_shared_fact(ctx: Ctx, info: dict) -> None:
+    """Tie of the generated fact about process-wide containers: the containers that the components of two real
+    apps were SEEN to share (object identity, run_case) against the names in gen_shared as Coq evaluates them."""
+    vals = ctx.coq_eval(["Model.SanitizeDef", "Model.ProcShared", "gen.ProcShared_gen"],
+                        ["map fst gen_shared", "[[if all_keyed gen_shared then 1 else 0]]"])
+    gen_guard(ctx)
+    names = sorted(pystr(v) for v in vals[0])
+    keyed = bool(vals[1][0][0])
+    ctx.notes["process_shared_state"] = {"containers_in_generated_fact": info.get("containers", names), "all_keyed_by_app_id": keyed,
+                                         "containers_seen_shared_by_two_apps": sorted(SHARED_SEEN),
+                                         "class_level_containers_rebound_per_instance": info.get("bound_per_instance_in_init", [])}
+    ctx.count(len(names) + len(SHARED_SEEN), len(SHARED_SEEN))
+    if info.get("degraded"):
+        return
+    import ast
+    try:
+        scanned = {n.name for m in trp.component_files(os.environ.get("VERIF_REPO", "/repo"))
+                   for n in ast.walk(ast.parse(open(m).read())) if isinstance(n, ast.ClassDef)}
+    except Exception:  # noqa: BLE001
+        return
+    alias_attrs = {a for v in info.get("instance_attributes_bound_to_them", {}).values() for a in v}
+    for seen in sorted(SHARED_SEEN):
+        if seen not in names and seen.split(".")[0] in scanned and seen.split(".")[-1] not in alias_attrs:
+            ctx.violation("model-mismatch:shared-containers",
+                          f"the components of two apps of one process share the container {seen} (same object), which the generated "
+                          f"fact does not list ({names}): the translator takes it for per-instance state",
+                          {"kind": "apps", "backend": "mem", "ids": ["alpha", "beta"], "ops": [["store", 0], ["call", 1]]})
 
 
 # ---------------------------------------------------------------- main / replay
 def main(ctx: Ctx) -> int:
     world.quiet()
     info = ctx.translate("sanitize", tr.translate, "gen/Sanitize_gen.v")
-    from harness.common import COQ
-    ctx.notes["_gen_text"] = open(os.path.join(COQ, "gen/Sanitize_gen.v")).read()
+    info_shared = ctx.translate("procshared", trp.translate, "gen/ProcShared_gen.v")
+    ctx.notes["_gen_text"] = gen_text()
     try:
         vocab = tr.parse_repo(os.environ.get("VERIF_REPO", "/repo"))["vocab"]
     except Exception:  # noqa: BLE001 - degraded translator: the committed default vocabulary
@@ -628,6 +964,7 @@ def main(ctx: Ctx) -> int:
         run_purge_selection(ctx, scratch, vocab)
         run_apps(ctx, scratch, ids, vocab)
         gen_guard(ctx)
+        run_shared_fact(ctx, info_shared)
         if not ctx.proof.ok or info.get("degraded") or info.get("hash_len", 8) < 8:
             search_collision(ctx, scratch, vocab, 1 << 18)
     finally:
@@ -641,6 +978,8 @@ def main(ctx: Ctx) -> int:
         "SQLite LIKE without ESCAPE: '%', '_' and ASCII-only case folding (validated against the engine on look-alike names)",
         "the row-count model covers the low-level writes (one row each) and purges; task calls are judged by the oracle only",
         "app ids the configuration layer accepts (non-empty); the empty id is covered at the sanitize_table_prefix level",
+        "one process: store_app_info is called with the app's own AppInfo (app.py does so); keys that mention .app_id / .table_prefix / "
+        "sanitize_table_prefix(...) count as derived from the acting app's id",
     ]
     ctx.trusted += ["hashlib.sha256 (the Gallina SHA-256 is compared with it on every id of the run)",
                     "sqlite3 engine: LIKE semantics, sqlite_master, unquoted identifier rules"]
@@ -648,8 +987,10 @@ def main(ctx: Ctx) -> int:
         rule="ids: fixed adversarial list (punctuation/case variants, prefixes of one another, storage-prefix look-alikes, quotes, "
              "semicolons, LIKE wildcards, unicode, blank, leading digits, SQL keywords, the known collision pair) + seeded random strings; "
              "purge selection: every (table prefix, name) pair of a synthetic look-alike database; apps: fixed witnesses + seeded families "
-             "of 2-3 ids with 4-14 operations, each run on one SQLite file and in one process; distinct_nontrivial = distinct ids + "
-             "distinct prefixes tried in the selection run + distinct app cases")
+             "of 2-3 ids with 4-14 operations, each run on one SQLite file and in one process, + fixed and seeded families of 2-3 ids "
+             "with 5-12 operations through the caching layers (store / store the same content / read back / probe a foreign reference / task call "
+             "with a large argument / app info / cron mark / trigger-run claim / low-level write / purge of a component / purge of the app); "
+             "distinct_nontrivial = distinct ids + distinct prefixes tried in the selection run + distinct app cases + containers seen shared")
 
 
 DEFAULT_VOCAB = [
